@@ -133,6 +133,10 @@ class Built:
             return self.vars[e[1]]
         if tag == "lit":
             return e[1]
+        if tag == "item":
+            if e[1] not in self.items:
+                raise BuildError("no item")
+            return self.items[e[1]]
         if tag == "attr":
             return getattr(self.bx(e[1]), e[2])
         if tag == "call":
